@@ -177,4 +177,23 @@ CHECKS["C20"] = {
     "note": TB,
 }
 
+CHECKS["C13"] = {
+    "engine": "bc", "engines": "bc py",
+    "technique": "sanitizer analogue for JIT code: the shipped numba "
+                 "kernels recompiled with global bounds checking "
+                 "(NUMBA_BOUNDSCHECK=1) under the other checks' workloads + "
+                 "an extreme corpus; IndexSpy arrays in interpreted mode "
+                 "record index extremes per kernel; valgrind memcheck on the "
+                 "unchecked machine code (thorough)",
+    "text": "Every kernel is executed on reduced slices of the C01-C09, C14, "
+            "C15, C20 (and controller) workloads and on an extreme corpus "
+            "(last index, one-item, own-bin, self-pairing, n=2, tour at the "
+            "upper bound) with bounds checks compiled in; any IndexError is "
+            "a violation. In interpreted mode spies report min/max index vs. "
+            "size per kernel and array. Decides 'no out-of-range index on "
+            "the inputs executed', not memory safety in general.",
+    "note": TB + "; numba implements NUMBA_BOUNDSCHECK for every array "
+            "index expression of the recompiled kernels",
+}
+
 NOT_APPLICABLE = {}
